@@ -57,6 +57,7 @@ func (e *c02Env) waitCaches(m *c02Mon) bool {
 }
 
 func c02ConcCase(c *Case, rng *Rng) {
+	rng = NewRng(rng.U64()) // the lib derives neighbouring cases from shifted copies of one stream
 	kem.DefaultSyncTime = time.Millisecond
 	e := &c02Env{c: c, cl: newC02Cluster(c.Idx)}
 	c.Op(c02RidLine(), "ok")
@@ -104,8 +105,15 @@ func c02ConcCase(c *Case, rng *Rng) {
 	c.Op("cbegin 1", "ok")
 	changes := 0
 	window := func() bool {
+		// every key at most once per window: the key set of the caches then tells that each
+		// event of the window has been handled (a create+delete of one key would not show)
+		touched := map[c02Key]bool{}
 		for i := rng.Intn(3); i > 0; i-- {
 			k := randomKey()
+			if touched[k] {
+				continue
+			}
+			touched[k] = true
 			e.cl.mu.Lock()
 			_, exists := e.cl.objs[k]
 			e.cl.mu.Unlock()
